@@ -11,6 +11,6 @@ class NumberUnaryExpr(number_unary_expr.NumberUnaryExpr):
         if self._unary_op.raw_text == '+':
             return self._operand.value
         elif self._unary_op.raw_text == '-':
-            return -self._operand.value
+            return self._operand.value.copy_negate()
         else:
             assert False
